@@ -56,6 +56,32 @@ Fault dimension (``fault=watcher``): the additional operation
 
 The statement makes no exception for assignments that fail half-way: whatever state the failed assignment
 leaves, every clause must hold in it (the oracle never looks at whether the value was stored).
+
+Update dimension (``upd=ctx``): class-level (and instance-level) ``.param.update`` used as a context manager, on
+every class of the hierarchy -- in particular on a subclass that only INHERITS ``x`` (the temporary value makes
+the metaclass copy the Parameter into the subclass; leaving the block assigns the old value back), interleaved
+with class-level sets on the declaring parent, namespace reads and instances:
+
+    U<k>   ``with K.param.update(x=v): pass``                       (enter + leave, empty body)
+    UO<k>  ``cm = K.param.update(x=v); cm.__enter__()``              (enter the block: later steps are its body)
+    UC<k>  ``cm.__exit__(None, None, None)``                         (leave the innermost open block of class k)
+    IU<j>  ``with insts[j].param.update(x=v): pass``
+
+(a block that is never left = a plain ``K.param.update(x=v)`` call).  The alphabet of these configurations is
+{R, S, N, U, UO, UC} per class + {I, IR, IU} per instance.
+
+Instance-default probe ``DI<j>`` (all configurations, run between the WI and the GI probes): when the instance
+has no instance-level copy of ``x`` yet, ``p = o.param['x']`` (which creates the copy NOW) must give a Parameter
+owned by ``o`` whose ``default`` equals ``getattr(type(o), 'x')`` (clause ``C13/instance/param-default``).  An
+instance copy that already exists is not judged (its default legitimately stays what it was when it was made).
+
+Shadow family (``shape=chain3 / chain4``, structured instead of exhaustive): add_parameter of a name nm (``x`` or
+the new name ``q``) on an ancestor j while an INTERMEDIATE class k (j < k) already owns a Parameter of that name
+-- by declaration (redecl), by a class-level set ``S<k>`` (copy-on-write), or by ``Px<k>`` / ``Pq<k>`` -- and a
+DEEPER class d (k < d) that does not declare it has its cache filled (``R<d>`` / ``N<d>``; optionally the caches
+of k and j too; the fills before or after k became an owner), followed by nothing / one / two further steps
+(class-level sets ``S`` of x or ``Sq<k>`` = ``K.q = v`` at j, k, d; another read / instance; the owner replaced
+again; instance set / read).  chain4 = A ; B(A) ; C(B) ; D(C).
 """
 import json
 import logging
@@ -93,9 +119,10 @@ SHAPES = {
     'chain2': (('A', None), ('B', 'A')),
     'chain3': (('A', None), ('B', 'A'), ('C', 'B')),
     'fork': (('A', None), ('B', 'A'), ('C', 'A')),
+    'chain4': (('A', None), ('B', 'A'), ('C', 'B'), ('D', 'C')),
     'diamond': (('A', None), ('B', 'A'), ('C', 'A'), ('D', 'B, C')),
 }
-SHAPE_ORDER = ('single', 'chain2', 'chain3', 'fork', 'diamond')
+SHAPE_ORDER = ('single', 'chain2', 'chain3', 'fork', 'diamond', 'chain4')
 CLS = 'ABCD'
 
 
@@ -104,6 +131,18 @@ def redecl_class(cfg):
     r = cfg['redecl']
     return None if not r else ('B' if r is True else r)
 HOWS = ('getitem', 'iter', 'contains')
+
+
+def ancestors(shape):
+    """class index -> set of indices of the class itself and its (transitive) bases"""
+    names = [c for c, _ in SHAPES[shape]]
+    out = {}
+    for i, (c, base) in enumerate(SHAPES[shape]):
+        s = {i}
+        for b in ([] if base is None else [x.strip() for x in base.split(',')]):
+            s |= out[names.index(b)]
+        out[i] = s
+    return out
 NAMES = ('name', 'x', 'y', 'q')
 
 
@@ -144,13 +183,34 @@ def configs():
             if xtype:
                 c['xtype'] = xtype
             out.append(c)
+    # update dimension: .param.update as a context manager on every class (a subclass that only inherits x)
+    for xtype in (None, 'String'):
+        for shape, redecl in (('chain2', False), ('chain3', False), ('chain3', True), ('fork', False),
+                              ('diamond', False), ('diamond', 'C')):
+            if xtype and shape not in ('chain2', 'chain3'):
+                continue
+            c = {'shape': shape, 'redecl': redecl, 'upd': 'ctx'}
+            if xtype:
+                c['xtype'] = xtype
+            out.append(c)
+    # shadow family (structured): add_parameter on an ancestor, an intermediate owner, a deeper cached class
+    for xtype in (None, 'String'):
+        for shape in ('chain3', 'chain4'):
+            for redecl in (False, True, 'C'):
+                if redecl == 'C' and shape != 'chain4':
+                    continue
+                c = {'shape': shape, 'redecl': redecl, 'fam': 'shadow'}
+                if xtype:
+                    c['xtype'] = xtype
+                out.append(c)
     return out
 
 
 def cfg_text(cfg):
     return 'shape=%s redecl=%s%s%s' % (cfg['shape'], redecl_class(cfg) or 'none',
                                        ' xtype=%s' % cfg['xtype'] if cfg.get('xtype') else '',
-                                       ' fault=%s' % cfg['fault'] if cfg.get('fault') else '')
+                                       ' fault=%s' % cfg['fault'] if cfg.get('fault') else '') + (
+        ' upd=%s' % cfg['upd'] if cfg.get('upd') else '')
 
 
 def xval(cfg, n, current=None):
@@ -208,6 +268,12 @@ def failing_class_set(K, v):
 def alphabet(cfg):
     n = len(SHAPES[cfg['shape']])
     ops = []
+    if cfg.get('upd'):
+        for k in range(n):
+            ops += ['R%d' % k, 'S%d' % k, 'N%d' % k, 'U%d' % k, 'UO%d' % k, 'UC%d' % k]
+        for j in range(MAXI):
+            ops += ['I%d' % j, 'IR%d' % j, 'IU%d' % j]
+        return ops
     for k in range(n):
         ops += ['R%d' % k, 'S%d' % k, 'Pq%d' % k, 'Px%d' % k, 'N%d' % k]
         if cfg.get('xtype') or cfg.get('fault'):
@@ -225,58 +291,73 @@ def _split(op):
     return kind, int(op[len(kind):])
 
 
-INST_KINDS = ('I', 'IR', 'WI', 'GI')
+INST_KINDS = ('I', 'IR', 'IU', 'WI', 'DI', 'GI')
+PROBE_KINDS = ('WI', 'DI', 'GI', 'WK')
+CLASS_KINDS = ('R', 'S', 'SF', 'Sq', 'Pq', 'Px', 'N', 'U', 'UO', 'UC', 'WK')
+_ANC = {}
 
 
-def valid_history(ops):
-    n = 0
+def _advance(state, op, shape):
+    """state = (number of instances, open update blocks per class, classes owning q);  -> the state after
+    ``op`` or None when ``op`` is not possible there (instance that does not exist yet, UC without an open
+    block of that class, ``K.q = v`` while q is not a Parameter reachable on K)"""
+    n, opens, qs = state
+    kind, i = _split(op)
+    if kind == 'N':
+        return None if n >= MAXI else (n + 1, opens, qs)
+    if kind in INST_KINDS:
+        return None if i >= n else state
+    if kind == 'UO':
+        return (n, opens + (i,), qs)
+    if kind == 'UC':
+        if i not in opens:
+            return None
+        j = len(opens) - 1 - opens[::-1].index(i)
+        return (n, opens[:j] + opens[j + 1:], qs)
+    if kind == 'Pq':
+        return (n, opens, qs | {i})
+    if kind == 'Sq':
+        anc = _ANC.get(shape) or _ANC.setdefault(shape, ancestors(shape))
+        if i not in anc or not (anc[i] & qs):
+            return None
+    return state
+
+
+_START = (0, (), frozenset())
+
+
+def valid_history(ops, shape='chain4'):
+    st = _START
     for op in ops:
-        kind, i = _split(op)
-        if kind == 'N':
-            if n >= MAXI:
-                return False
-            n += 1
-        elif kind in INST_KINDS and i >= n:
+        st = _advance(st, op, shape)
+        if st is None:
             return False
     return True
 
 
-def histories(alpha, length, first=None):
-    def rec(pre, n):
+def histories(alpha, length, first=None, shape='chain4'):
+    def rec(pre, st):
         if len(pre) == length:
             yield tuple(pre)
             return
         for op in alpha:
-            kind, i = _split(op)
-            if kind == 'N':
-                if n >= MAXI:
-                    continue
-                pre.append(op)
-                yield from rec(pre, n + 1)
-                pre.pop()
-            elif kind in INST_KINDS:
-                if i >= n:
-                    continue
-                pre.append(op)
-                yield from rec(pre, n)
-                pre.pop()
-            else:
-                pre.append(op)
-                yield from rec(pre, n)
-                pre.pop()
+            st2 = _advance(st, op, shape)
+            if st2 is None:
+                continue
+            pre.append(op)
+            yield from rec(pre, st2)
+            pre.pop()
     if first is None:
-        yield from rec([], 0)
+        yield from rec([], _START)
     else:
-        kind, i = _split(first)
-        if kind == 'N':
-            yield from rec([first], 1)
-        elif kind not in INST_KINDS:
-            yield from rec([first], 0)
+        st = _advance(_START, first, shape)
+        if st is not None:
+            yield from rec([first], st)
 
 
 def op_source(op, step, cfg, how):
     kind, i = _split(op)
-    cn = CLS[i] if kind in ('R', 'S', 'SF', 'Pq', 'Px', 'N', 'WK') else None
+    cn = CLS[i] if kind in CLASS_KINDS else None
     if kind == 'R':
         return {'getitem': "%s.param['x']" % cn, 'iter': 'list(%s.param)' % cn,
                 'contains': "'x' in %s.param" % cn}[how]
@@ -294,7 +375,23 @@ def op_source(op, step, cfg, how):
         return 'insts[%d].x = %s' % (i, xval(cfg, 40 + step, 'insts[%d].x' % i))
     if kind == 'IR':
         return "insts[%d].param['x']" % i
+    if kind == 'Sq':
+        return '%s.q = %d' % (cn, 60 + step)
+    if kind == 'U':
+        return 'with %s.param.update(x=%s):\n    pass' % (cn, xval(cfg, 70 + step, '%s.x' % cn))
+    if kind == 'UO':
+        return ("cm = %s.param.update(x=%s); cm.__enter__(); cms['%s'].append(cm)"
+                % (cn, xval(cfg, 70 + step, '%s.x' % cn), cn))
+    if kind == 'UC':
+        return "cms['%s'].pop().__exit__(None, None, None)" % cn
+    if kind == 'IU':
+        return 'with insts[%d].param.update(x=%s):\n    pass' % (i, xval(cfg, 90 + step, 'insts[%d].x' % i))
     raise AssertionError(op)
+
+
+OP_NOTE = {'UO': 'enter the block  `with %s.param.update(x=...):`  (the following steps are its body)',
+           'UC': 'leave the innermost open  `with %s.param.update(...)`  block'}
+CMS_SRC = "cms = {'A': [], 'B': [], 'C': [], 'D': []}        # open `with K.param.update(...)` blocks per class"
 
 
 PROBE_SRC = {
@@ -305,6 +402,13 @@ PROBE_SRC = {
            "insts[{i}].param.unwatch(w)\n"
            "probe_ok = (got == [v] and insts[{i}].x == v)\n"
            "probe_detail = 'after insts[{i}].param.watch(cb, [\"x\"]); insts[{i}].x = %r: callback received %r' % (v, got)\n"),
+    'DI': ("K = type(insts[{i}])\n"
+           "fresh = insts[{i}].param.objects('existing')['x'].owner is not insts[{i}]\n"
+           "p = insts[{i}].param['x']\n"
+           "cv = getattr(K, 'x')\n"
+           "probe_ok = (not fresh) or (p.owner is insts[{i}] and type(p.default) is type(cv) and p.default == cv)\n"
+           "probe_detail = ('insts[{i}].param[\"x\"] (instance-level copy made by this very access): owner is the instance: %r, '\n"
+           "                'default %r, but %s.x is %r' % (p.owner is insts[{i}], p.default, K.__name__, cv))\n"),
     'GIc': ("p = insts[{i}].param['x']\n"
             "p.constant = True\n"
             "v = {v}\n"
@@ -330,7 +434,7 @@ PROBE_SRC = {
 def probe_source(op, step, cfg):
     kind, i = _split(op)
     cur = '%s.x' % CLS[i] if kind == 'WK' else 'insts[%d].x' % i
-    v = xval(cfg, {'WI': 700, 'GI': 600, 'WK': 800}[kind] + step, cur)
+    v = xval(cfg, {'WI': 700, 'GI': 600, 'WK': 800, 'DI': 0}[kind] + step, cur)
     if kind == 'GI' and cfg.get('xtype'):
         kind = 'GIc'
     return PROBE_SRC[kind].format(i=i, c=CLS[i % len(CLS)], v=v)
@@ -426,11 +530,12 @@ def run_history(cfg, how, ops, hits=None):
     env = {'param': _P()}
     exec(_compiled(class_source(cfg) + CHECK_SRC), env)
     env['insts'] = []
+    exec(_compiled(CMS_SRC), env)
     icls = []
     base = []
     for step, op in enumerate(ops):
         kind, i = _split(op)
-        if kind in ('WI', 'GI', 'WK'):
+        if kind in PROBE_KINDS:
             break           # probes given explicitly (shrinking / replay): handled below
         try:
             exec(_compiled(op_source(op, step, cfg, how)), env)
@@ -455,7 +560,8 @@ def run_history(cfg, how, ops, hits=None):
                 hits['instance'] = hits.get('instance', 0) + 5
             for cl, det in res:
                 out.append(('C13/instance/' + cl, 'insts[%d]:%s' % (j, icls[j]), det, tuple(base)))
-        probes = (['WI%d' % j for j in range(len(icls))] + ['GI%d' % j for j in range(len(icls))]
+        probes = (['WI%d' % j for j in range(len(icls))] + ['DI%d' % j for j in range(len(icls))]
+                  + ['GI%d' % j for j in range(len(icls))]
                   + ['WK%d' % k for k in range(len(classes))])
     else:
         probes = explicit
@@ -472,7 +578,8 @@ def run_history(cfg, how, ops, hits=None):
         if hits is not None:
             hits['probe'] = hits.get('probe', 0) + 1
         if not ok:
-            cl = {'WI': 'C13/instance/watch-fires', 'GI': 'C13/instance/governs', 'WK': 'C13/class/watch-fires'}[kind]
+            cl = {'WI': 'C13/instance/watch-fires', 'GI': 'C13/instance/governs', 'WK': 'C13/class/watch-fires',
+                  'DI': 'C13/instance/param-default'}[kind]
             at = ('insts[%d]:%s' % (i, icls[i])) if kind != 'WK' else CLS[i]
             out.append((cl, at, det, tuple(done)))
     return out
@@ -508,13 +615,13 @@ def fails_with(cfg, how, ops, clause):
 def shrink(cfg, how, ops, clause):
     """ops: history (+ probes when the clause is a probe clause).  Delete operations / probes and
     simplify the configuration while a violation of the same clause remains."""
-    probe_clause = clause.split('/')[-1] in ('watch-fires', 'governs')
+    probe_clause = clause.split('/')[-1] in ('watch-fires', 'governs', 'param-default')
     ops = list(ops)
 
     def ok(c, h, cand):
-        if not cand or not valid_history(cand):
+        if not cand or not valid_history(cand, c['shape']):
             return False
-        if probe_clause and _split(cand[-1])[0] not in ('WI', 'GI', 'WK'):
+        if probe_clause and _split(cand[-1])[0] not in PROBE_KINDS:
             return False
         rs = fails_with(c, h, cand, clause)
         return any(len(r[3]) == len(cand) or not probe_clause for r in rs)
@@ -531,7 +638,7 @@ def shrink(cfg, how, ops, clause):
         if changed:
             continue
         # smaller / simpler configuration
-        used = max([_split(o)[1] for o in ops if _split(o)[0] in ('R', 'S', 'SF', 'Pq', 'Px', 'N', 'WK')] + [0])
+        used = max([_split(o)[1] for o in ops if _split(o)[0] in CLASS_KINDS] + [0])
         for shape in SHAPE_ORDER:
             if len(SHAPES[shape]) <= used or len(SHAPES[shape]) >= len(SHAPES[cfg['shape']]):
                 continue
@@ -574,15 +681,19 @@ def replay_script(cfg, how, ops, clause, at, witness):
     head = _header(prop='C13', name='replay_c13.py', clause=clause, witness=witness)
     lines = [head, 'import warnings, logging', 'import param', "warnings.simplefilter('ignore')",
              "logging.getLogger('param').setLevel(logging.CRITICAL)", class_source(cfg) + CHECK_SRC, 'insts = []']
+    if any(_split(o)[0] in ('UO', 'UC') for o in ops):
+        lines.append(CMS_SRC)
     kind_last = _split(ops[-1])[0]
     for step, op in enumerate(ops):
-        if _split(op)[0] in ('WI', 'GI', 'WK'):
+        if _split(op)[0] in PROBE_KINDS:
             lines.append('# probe step %d: %s' % (step, op))
             lines.append(probe_source(op, step, cfg))
         else:
-            lines.append(op_source(op, step, cfg, how) + '        # step %d: %s' % (step, op))
+            k_, i_ = _split(op)
+            lines.append('# step %d: %s%s' % (step, op, ('  -- ' + OP_NOTE[k_] % CLS[i_]) if k_ in OP_NOTE else ''))
+            lines.append(op_source(op, step, cfg, how))
     what = clause.split('/')[-1]
-    if kind_last in ('WI', 'GI', 'WK'):
+    if kind_last in PROBE_KINDS:
         lines += ['if not probe_ok:', "    print('REPRODUCED: ' + probe_detail); sys.exit(1)", "print('NOT-REPRODUCED')"]
     else:
         if at[0] in CLS and len(at) == 1:
@@ -595,9 +706,75 @@ def replay_script(cfg, how, ops, clause, at, witness):
 
 
 # ---------------------------------------------------------------------------------------------
+def shadow_histories(cfg, tier):
+    """Structured family: add_parameter of ``nm`` on an ancestor j while an intermediate class k (j < k) owns a
+    Parameter of that name and a deeper class d (k < d), which does not declare it, has its cache filled.
+    -> sorted list of distinct histories (tuples of operations) for this configuration."""
+    n = len(SHAPES[cfg['shape']])
+    rd = redecl_class(cfg)
+    rk = CLS.index(rd) if rd else None
+    out = set()
+    for k in range(1, n - 1):
+        for d in range(k + 1, n):
+            for j in range(0, k):
+                for nm in ('x', 'q'):
+                    if nm == 'q' and cfg.get('xtype'):
+                        continue
+                    if nm == 'x':
+                        if rk is None:
+                            owns = [('S%d' % k,), ('Px%d' % k,)]
+                        elif rk == k:
+                            owns = [()]                           # owner by declaration
+                        else:
+                            continue                              # x redeclared elsewhere: another configuration
+                    else:
+                        owns = [('Pq%d' % k,)]
+                    add = 'P%s%d' % (nm, j)
+                    sk = 'S' if nm == 'x' else 'Sq'
+                    tails = [(), ('%s%d' % (sk, j),), ('%s%d' % (sk, k),), ('%s%d' % (sk, d),), ('R%d' % d,),
+                             ('N%d' % d,), ('P%s%d' % (nm, k),), ('%s%d' % (sk, k), '%s%d' % (sk, j)),
+                             ('N%d' % d, '%s%d' % (sk, j)), ('%s%d' % (sk, d), '%s%d' % (sk, k))]
+                    others = [c for c in range(n) if c not in (j, k, d)]
+                    extras = [(), ('R%d' % k,), ('R%d' % j,), ('R%d' % k, 'R%d' % j)]
+                    if others:
+                        extras += [('R%d' % others[0],), ('R%d' % others[0], 'R%d' % k)]
+                    for own in owns:
+                        for fill in ('R%d' % d, 'N%d' % d):
+                            for extra in extras:
+                                fills = (fill,) + extra
+                                pres = [own + fills]                                  # fills after k became an owner
+                                if own:
+                                    pres.append(fills + own + (fill,))                # before and after
+                                    pres.append((fill,) + own + fills)
+                                    pres.append(fills + own)                          # before only
+                                for pre in pres:
+                                    for tail in tails:
+                                        h = pre + (add,) + tail
+                                        if fill[0] == 'N':
+                                            out.add(h + ('I0',))
+                                            out.add(h + ('IR0',))
+                                        out.add(h)
+    out = sorted(h for h in out if valid_history(h, cfg['shape']))
+    return out
+
+
 def plan(tier, cfg):
     """-> (max length enumerated exhaustively (all lengths 1..L), [(length, sample size)], hows)"""
     n = len(SHAPES[cfg['shape']])
+    if cfg.get('fam'):
+        return (0, [])
+    if cfg.get('upd'):
+        small = bool(cfg.get('xtype')) or n > 3
+        if tier == 'thorough':
+            return {2: (4, [(5, 6000), (6, 3000)]), 3: (3, [(4, 8000), (5, 6000)]), 4: (3, [(4, 6000), (5, 4000)])}[n] \
+                if not cfg.get('xtype') else {2: (4, [(5, 3000)]), 3: (3, [(4, 4000), (5, 2000)])}[n]
+        if tier == 'smoke':
+            return (2, [(3, 100)])
+        if n == 2:
+            return (2, [(3, 300), (4, 150)]) if small else (3, [(4, 300), (5, 200)])
+        if n == 3 and cfg['shape'] == 'chain3' and not small and not cfg['redecl']:
+            return (3, [(4, 300)])
+        return (1, [(2, 150), (3, 150), (4, 80)]) if small else (2, [(3, 500), (4, 300)])
     if cfg['shape'] == 'diamond' or cfg.get('fault'):
         small = bool(cfg.get('xtype'))
         if tier == 'thorough':
@@ -617,6 +794,25 @@ def plan(tier, cfg):
         return {1: (3, []), 2: (3, []), 3: (2, [(3, 300), (4, 300)])}[n]
     return {1: (4, [(5, 1000)]), 2: (3, [(4, 1500), (5, 1000)]), 3: (3, [(4, 1500), (5, 1000)])}[n] \
         if cfg['shape'] != 'fork' else (2, [(3, 1500), (4, 1500)])
+
+
+SHADOW_QUICK = 700          # histories of the shadow family sampled per configuration in the quick tier
+
+
+def shadow_sample(cfg, tier, seed):
+    hs = shadow_histories(cfg, tier)
+    if tier == 'thorough':
+        return hs
+    # quick: every skeleton without tail (deterministic), and a seeded slice of the rest
+    count = 60 if tier == 'smoke' else SHADOW_QUICK
+    if len(hs) <= count:
+        return hs
+    key = lambda h: zlib.crc32(('%d|%s|%s' % (seed, cfg_text(cfg), ';'.join(h))).encode())
+    core = [h for h in hs if _split(h[-1])[0] in ('Px', 'Pq')]
+    rest = sorted((h for h in hs if _split(h[-1])[0] not in ('Px', 'Pq')), key=key)
+    if len(core) > count // 2:
+        core = sorted(core, key=key)[:count // 2]
+    return sorted(core + rest[:max(0, count - len(core))])
 
 
 def how_of(seed, cfg, ops):
@@ -652,9 +848,16 @@ def _work(task):
         if not rs and len(samples) < 1 and n % 53 == 7:
             samples.append({'cfg': cfg_text(cfg), 'how': how, 'history': ';'.join(ops)})
 
-    if mode == 'exh':
+    if mode == 'lst':
+        for ops in arg[1]:
+            if tier == 'thorough':
+                for how in HOWS:
+                    one(ops, how)
+            else:
+                one(ops, how_of(seed, cfg, ops))
+    elif mode == 'exh':
         length, first = arg
-        for ops in histories(alpha, length, first):
+        for ops in histories(alpha, length, first, cfg['shape']):
             if tier == 'thorough' and length <= 3:
                 for how in HOWS:
                     one(ops, how)
@@ -669,7 +872,7 @@ def _work(task):
         while len(keys) < count and tries < 40 * count:
             tries += 1
             ops = tuple(rnd.choice(alpha) for _ in range(length))
-            if ops in keys or not valid_history(ops):
+            if ops in keys or not valid_history(ops, cfg['shape']):
                 continue
             keys.add(ops)
             one(ops, how_of(seed, cfg, ops))
@@ -679,6 +882,11 @@ def _work(task):
 def make_tasks(tier, seed):
     tasks = []
     for cfg in configs():
+        if cfg.get('fam'):
+            hs = shadow_sample(cfg, tier, seed)
+            for a in range(0, len(hs), 250):
+                tasks.append((cfg, 'lst', (6, hs[a:a + 250]), seed, tier))
+            continue
         L, sampled = plan(tier, cfg)
         alpha = alphabet(cfg)
         firsts = [o for o in alpha if _split(o)[0] not in INST_KINDS]
@@ -696,6 +904,11 @@ def make_tasks(tier, seed):
 def plan_text(tier):
     out = []
     for cfg in configs():
+        if cfg.get('fam'):
+            nall = len(shadow_histories(cfg, tier))
+            out.append('%s [shadow family]: %d of the %d structured histories (length 3..9)' % (
+                cfg_text(cfg), len(shadow_sample(cfg, tier, 0)), nall))
+            continue
         L, sampled = plan(tier, cfg)
         out.append('%s: all histories of length 1..%d%s' % (
             cfg_text(cfg), L, ''.join(' + %d seeded of length %d' % (c, l) for l, c in sampled)))
@@ -717,6 +930,13 @@ def _run(tier, seed):
              'instance, I<j> instance set, IR<j> read instance namespace}; every clause is evaluated after the '
              'LAST step only, for every class and instance (listed, identity vs inspect.getattr_static, default, '
              'values, repr, serialize, watch), followed by probe steps (watch-fires, governs).  Every length '
+             'update configurations (upd=ctx; chain2, chain3, fork, diamond; x a Number / String) over the alphabet '
+             '{R, S, N, U<k> = with K.param.update(x=v): pass, UO<k> / UC<k> = enter / leave such a block (the steps '
+             'between are its body), I, IR, IU<j> = with inst.param.update(x=v): pass}; shadow family (chain3, chain4 = '
+             'A;B(A);C(B);D(C); structured, not exhaustive): add_parameter of x / q on an ancestor j while an intermediate '
+             'class k owns a Parameter of that name (declared / S<k> / Px<k> / Pq<k>) and a deeper class d has its cache '
+             'filled (R / N, before and/or after), + 0..2 further steps (S / Sq<k> = K.q = v / R / N / owner replaced / I / IR); '
+             'probe DI<j>: a freshly made instance copy obj.param[x] has default == getattr(type(obj), x).  Every length '
              '1..k is enumerated, so every prefix is checked in a run of its own.  The read style of a case is '
              'hashed from (seed, history) (all three styles for length <= 3 in thorough).  Distinct = '
              'distinct (configuration, style, history).',
